@@ -305,7 +305,9 @@ def family_programs(tier):
     marks = [LRule([], [(IA, [('user', 300), ('user1', -2), ('adv', 777)])]), LRule([], [(IAB, [('user1', 7)]), (IABCD, [('shift', 25)])]), None]
     copies = [LRule([], [(IAB, [('copy', 1)]), (IAB, [('copy', -1)])]), LRule([], [(IAB, [('copy', 1)]), (IABCD, [])]), LRule([IAB], [(IABCD, [('copy', -1)])]),
               LRule([], [(IABCD, []), (IAB, [('copy', -1)])]), LRule([], [(IAB, [('copy', 1), ('user1', 9)]), (IAB, [('copy', -1), ('adv', 300)])]),
-              LRule([], [(IAB, [('copy', 2)]), (IABCD, []), (IAB, [('copy', -2)])]), LRule([], [(IAB, [('copy', 1)]), (IAB, [('copy', 1)]), (IABCD, [('copy', -2)])])]
+              LRule([], [(IAB, [('copy', 2)]), (IABCD, []), (IAB, [('copy', -2)])]), LRule([], [(IAB, [('copy', 1)]), (IAB, [('copy', 1)]), (IABCD, [('copy', -2)])]),
+              LRule([], [(IAB, [('copy', 2)]), (IAB, [('copy', -1)]), (IABCD, [('copy', -1)])]), LRule([], [(IABCD, []), (IAB, [('copy', -1)]), (IABCD, [('copy', -1)])]),      # chains of BACKWARD copies: an item rewritten by a backward copy is referenced by the next item
+              LRule([IAB], [(IAB, [('copy', -1)]), (IABCD, [('copy', -1)])])]
     tests = [LRule([], [(IABCD, [('glyph', OZ)])], (0, 'user1', 0, -2)), LRule([], [(IABCD, [('glyph', OZ)])], (0, 'user1', 0, 7)), LRule([], [(IABCD, [('glyph', OZ)])], (0, 'user', 0, 300))]
     for mi, mark in enumerate(marks):
         for ci, cp in enumerate(copies):
